@@ -44,7 +44,7 @@ class SubstanceSolver:
             if m.group(1) and m.group(3):
                 return ")" + CustomOperatorMul.symbol + m.group(1) + CustomOperatorAdd.symbol + m.group(3)
             elif m.group(1):
-                return ")" + CustomOperatorMul.symbol + m.group(1)
+                return ")" + CustomOperatorMul.symbol + m.group(1) + m.group(2)
             elif m.group(3):
                 return ")" + CustomOperatorAdd.symbol + m.group(3)
             else:
